@@ -30,32 +30,29 @@ theorem foldl_append_two {γ δ ε : Type} (g : γ → δ) (h : γ → ε) (l : 
 
 /-! ## the linear runs -/
 
+/-- a loop that appends one value per item is a `map` (whatever the body looks like: a comprehension, a loop with
+`append`, with or without a named local for the value — the function `g` is found by unification) -/
+theorem foldl_snoc {γ δ : Type} (g : γ → δ) (l : List γ) (acc : List δ) :
+    l.foldl (fun acc x => acc ++ [g x]) acc = acc ++ l.map g := by
+  induction l generalizing acc with
+  | nil => simp
+  | cons a t ih => simp [ih]
+
 /-- `_run_linear_sequential`: the function's values in the order of the settings -/
 theorem coreRunSeq_refines (f : α → β) (settings : List α) :
     Gen.coreRunSeq f settings = .ok (settings.map f) := by
-  simp only [Gen.coreRunSeq, Gen.Default.coreRunSeq]
-  rw [foldl_append_one]
-  rfl
+  simp only [Gen.coreRunSeq, Gen.Default.coreRunSeq, foldl_snoc, List.nil_append]
+  try rfl
 
 /-- `_run_linear_executor`: the `i`-th collected result is the result of the future of the `i`-th submitted setting
 (submission order = collection order) -/
 theorem coreRunExec_refines (submit : α → φ) (getResult : φ → β) (settings : List α) :
     Gen.coreRunExec submit getResult settings = .ok (settings.map fun kws => getResult (submit kws)) := by
-  simp only [Gen.coreRunExec, Gen.Default.coreRunExec]
-  have : ∀ (l : List (α × φ)) (acc : List β),
-      l.foldl (fun (acc : List β) (x : α × φ) => match x with | (_, future) => acc ++ [getResult future]) acc
-        = acc ++ l.map (fun x => getResult x.2) := by
-    intro l
-    induction l with
-    | nil => simp
-    | cons x xs ih => intro acc; obtain ⟨a, b⟩ := x; simp [ih]
-  rw [this]
-  have h2 : ∀ l : List α, (l.zip (l.map fun kws => submit kws)).map (fun x => getResult x.2)
-      = l.map fun kws => getResult (submit kws) := by
-    intro l; induction l with
-    | nil => rfl
-    | cons a t ih => simp only [List.map_cons, List.zip_cons_cons, ih]
-  simp only [h2, List.nil_append]
+  simp only [Gen.coreRunExec, Gen.Default.coreRunExec, foldl_snoc, List.nil_append]
+  congr 1
+  induction settings with
+  | nil => rfl
+  | cons a t ih => simpa using ih
 
 example : Gen.coreRunSeq (fun n : Nat => n * 2) [3, 1, 2] = .ok [6, 2, 4] := by rfl
 example : Gen.coreRunExec (fun n : Nat => (n, n + 1)) (fun p : Nat × Nat => p.1 * p.2) [3, 1] = .ok [12, 2] := by rfl
